@@ -809,7 +809,7 @@ pub fn run(tier: Tier, seed: u64, replay: Option<String>) -> i32 {
     run_cases(&mut ctx, cases, &mut stats);
 
     // random larger expressions
-    let n = tier.pick(30000, 300000);
+    let n = tier.pick(200000, 1500000);
     let mut drv = Driver::new(seed, 4, 120);
     let rnd: Vec<Case> = drv
         .draw(n)
